@@ -6,6 +6,10 @@ import heapq
 NT_SPLICE = ('typedargslist', 'varargslist')
 
 
+def _NO_CHOICE(rule, opts):
+    return None
+
+
 class Deriver:
     def __init__(self, pgen_grammar):
         self.g = pgen_grammar
@@ -84,9 +88,10 @@ class Deriver:
         steps = 0
         while True:
             opts = self.options(rule, state)
-            pick = chooser(rule, opts) if budget[0] > 0 and steps < 12 else None
+            # a free choice is only spent where there is something to choose
+            pick = chooser(rule, opts) if budget[0] > 0 and steps < 12 and len(opts) > 1 else None
             if pick is None:
-                lab = self.best(rule, state)
+                lab = opts[0] if len(opts) == 1 else self.best(rule, state)
             else:
                 budget[0] -= 1
                 lab = opts[pick % len(opts)]
@@ -94,7 +99,8 @@ class Deriver:
                 break
             used.add((rule, self.dfas[rule].index(state), lab))
             if lab in self.nts:
-                children.append(self.derive(lab, chooser, used, budget))
+                # the free choices walk the focus rule's own automaton; what it calls is completed minimally
+                children.append(self.derive(lab, _NO_CHOICE, used, [0]))
             else:
                 children.append(('LEAF', lab))
             state = state.arcs[lab]
@@ -276,9 +282,13 @@ def unproducible(d):
     bracket depth 0 always starts the format spec, so e.g. a bare lambda or a walrus there is not expressible"""
     from ast import literal_eval
     stack = []          # one entry per open f-string expression: bracket depth inside it
+    prev_lab = None
     for lab, rule in tokens_of(d):
         if lab in ('INDENT', 'DEDENT'):
             continue
+        if lab == 'FSTRING_STRING' and prev_lab == 'FSTRING_STRING':
+            return True     # two adjacent literal parts are one token for the tokenizer
+        prev_lab = lab
         s = SPELL[lab] if lab in SPELL else literal_eval(lab)
         if rule == 'fstring_expr' and s == '{':
             stack.append(0)
